@@ -83,11 +83,22 @@ unsigned checksum_one() {
 template <typename A, typename B>
 void common(std::true_type) {
     using namespace au;
-    std::printf(" common=[%s] lt=%d eq=%d\n", unit_label(common_unit(A{}, B{})),
+    std::printf(" common=[%s] lt=%d eq=%d", unit_label(common_unit(A{}, B{})),
                 int(make_quantity<A>(1.0) < make_quantity<B>(1.0)), int(make_quantity<A>(0.0) == make_quantity<B>(0.0)));
 }
 template <typename A, typename B>
-void common(std::false_type) {
+void common(std::false_type) {}
+
+// points: this is where units with an origin (celsius, fahrenheit, kelvins) differ from the rest
+template <typename A, typename B>
+void points(std::true_type) {
+    using namespace au;
+    const auto pa = make_quantity_point<A>(100.0);
+    const auto pb = make_quantity_point<B>(100.0);
+    std::printf(" pt_lt=%d pt_eq=%d pt_diff=%.17g\n", int(pa < pb), int(pa == pb), (pa - pb).in(A{}));
+}
+template <typename A, typename B>
+void points(std::false_type) {
     std::printf("\n");
 }
 template <typename A, typename B>
@@ -108,6 +119,7 @@ void pair(const char *a, const char *b) {
     std::printf("pair %s %s samedim=%d", a, b, int(has_same_dimension(A{}, B{})));
     pair_labels<A, B>(std::integral_constant<bool, !AreUnitsQuantityEquivalent<A, B>::value>{});
     common<A, B>(std::integral_constant<bool, HasSameDimension<A, B>::value && !AreUnitsQuantityEquivalent<A, B>::value>{});
+    points<A, B>(std::integral_constant<bool, HasSameDimension<A, B>::value && (!AreUnitsQuantityEquivalent<A, B>::value || !AreUnitsPointEquivalent<A, B>::value)>{});
 }
 
 // Units of time additionally go through the chrono interop with their own exact period.
@@ -144,6 +156,10 @@ void unit(const char *name) {
     const Quantity<U, std::uint16_t> u16 = make_quantity<U>(std::uint16_t{65535});
     std::printf("  sub %d %d %zu %zu\n", int((-s8).in(U{})), int((+u16).in(U{})), sizeof(s8),
                 sizeof(u16));
+    constexpr auto p10 = make_quantity_point<U>(10);
+    constexpr auto p3 = make_quantity_point<U>(3);
+    std::printf("  pt %d %d %d %.17g\n", (p10 - p3).in(U{}), int(p10 > p3), (p3 + make_quantity<U>(4)).in(U{}),
+                make_quantity_point<U>(2.5).template as<double>(U{}).in(U{}));
     chrono_for<U>(std::integral_constant<bool, HasSameDimension<U, Seconds>::value>{});
 }
 
